@@ -104,3 +104,47 @@ pub fn run() {
         }
     }
 }
+
+/// Regional / script variants whose plural rules may differ from their bare language's.
+/// Prints `V <variant> <c|o> same|differs <first differing operand>=<variant category>/<language category>`.
+pub const VARIANTS: &[&str] = &[
+    "pt-PT", "pt-BR", "pt-AO", "pt-MZ", "pt-CH", "pt-LU", "pt-CV", "pt-GW", "pt-MO", "pt-ST", "pt-TL", "pt-GQ",
+    "es-419", "es-MX", "es-AR", "es-US", "es-ES", "en-GB", "en-US", "en-AU", "en-IN", "en-CA", "en-001", "en-150",
+    "fr-CA", "fr-CH", "fr-BE", "fr-FR", "de-AT", "de-CH", "de-DE", "it-CH", "nl-BE", "sv-FI", "ru-UA", "ru-BY",
+    "ar-EG", "ar-SA", "ar-MA", "ar-DZ", "ar-AE", "zh-Hans", "zh-Hant", "zh-Hant-TW", "zh-Hans-CN", "zh-HK", "zh-TW",
+    "sr-Latn", "sr-Cyrl", "sr-Latn-RS", "sr-ME", "bs-Cyrl", "bs-Latn", "uz-Cyrl", "uz-Latn", "az-Cyrl", "az-Latn",
+    "pa-Arab", "pa-Guru", "ks-Deva", "ks-Arab", "sd-Deva", "sd-Arab", "shi-Latn", "shi-Tfng", "vai-Latn", "vai-Vaii",
+    "ha-NE", "ha-GH", "sw-KE", "sw-CD", "sw-UG", "ms-BN", "ms-SG", "ms-ID", "bn-IN", "ta-LK", "ta-SG", "ur-IN",
+    "ro-MD", "hr-BA", "el-CY", "tr-CY", "ko-KP", "ca-AD", "ca-FR", "ca-ES-valencia", "eu-ES", "gl-ES", "ga-GB",
+    "he-IL", "cy-GB", "ja-JP", "pl-PL", "ff-Adlm", "ff-Latn", "kk-KZ", "mn-Mong", "yue-Hans", "yue-Hant", "nb-SJ",
+    "nn-NO", "no-NO", "fil-PH", "tl-PH", "iw-IL", "in-ID", "ji-001", "mo-MD", "sh-BA", "fa-AF", "ps-PK", "ne-IN",
+    "so-KE", "ti-ER", "om-KE", "af-NA", "lt-LT", "lv-LV", "sl-SI", "cs-CZ", "sk-SK", "uk-UA", "be-BY", "mt-MT",
+    "gd-GB", "br-FR", "gv-IM", "kw-GB", "se-FI", "se-SE", "smn-FI", "is-IS", "da-GL", "fo-DK", "hy-AM", "ka-GE",
+];
+
+pub fn variants() {
+    let mut o = std::io::stdout().lock();
+    let ns = ints();
+    let ops: Vec<PluralOperands> = DECIMALS.iter().map(|d| d.parse().unwrap()).collect();
+    let table = |loc: &icu_locid::Locale, rt: PluralRuleType| -> String {
+        let r = PluralRules::try_new(&loc.into(), rt).unwrap();
+        let mut t: Vec<&str> = ns.iter().map(|n| cat_name(r.category_for(*n))).collect();
+        t.extend(ops.iter().map(|n| cat_name(r.category_for(*n))));
+        t.join(",")
+    };
+    let und: icu_locid::Locale = "und".parse().unwrap();
+    for (tag, rt) in [('c', PluralRuleType::Cardinal), ('o', PluralRuleType::Ordinal)] {
+        writeln!(o, "V und und {tag} {}", table(&und, rt)).unwrap();
+    }
+    for v in VARIANTS {
+        let Ok(icu) = v.parse::<icu_locid::Locale>() else {
+            continue;
+        };
+        let lang = icu_locid::Locale::from(icu_locid::LanguageIdentifier::from(icu.id.language));
+        for (tag, rt) in [('c', PluralRuleType::Cardinal), ('o', PluralRuleType::Ordinal)] {
+            // V <variant> <bare language> <c|o> <category of every operand of the N and D lines of `rt`>
+            writeln!(o, "V {v} {v} {tag} {}", table(&icu, rt)).unwrap();
+            writeln!(o, "V {v} {lang} {tag} {}", table(&lang, rt)).unwrap();
+        }
+    }
+}
